@@ -285,13 +285,15 @@ def check_C06(tier, seed):
     res = Result(pid, tier, seed)
     res.rule = ("log_step: every counter class (0, nr-1..nr+3, max-2..max, random; all 256 for log8 in thorough) × grid of (max_count,num_reserved) × draws placed at 0, 1-2^-53, "
                 "thr·(1∓1e-9) × v∈{1,3}; log_history: random histories with adds/merges/add_ngram on shared cells, oracle estimate ≥ min(true, nr+1) and exactness for collision-free "
-                "keys; rand_refill: seeded Numba generator, runs crossing 1-2 refills, consumed positions and refilled batch compared with the model's stream. In thorough additionally "
+                "keys; rand_refill: seeded Numba generator, runs crossing 1-2 refills, consumed positions and refilled batch compared with the model's stream; fresh_draw_state: new instances (constructor, load, merge into a new sketch) start at pointer 0 of a "
+                "batch of 2048 distinct uniform draws and their first probabilistic step consumes exactly rand_nums[0]. In thorough additionally "
                 "a seeded Monte-Carlo comparison of mean estimates with the true count (refutation search, not a proof).")
     lean = lean_check(pid)
     rng = rng_for(seed, pid)
     slice_log.log_step(res, rng, tier)
     slice_log.log_history(res, rng, tier, {pid}, core.B(200) if tier == QUICK else 3000, core.B(14) if tier == QUICK else 200)
     slice_log.rand_refill(res, rng, tier)
+    slice_log.fresh_draw_state(res, rng, tier)
     if tier != QUICK:
         _log_unbiased_mc(res, rng)
     _only(res, pid)
